@@ -76,6 +76,13 @@ func Main(id, tier, replayPath string) int {
 	code := func() (code int) {
 		defer func() {
 			if r := recover(); r != nil {
+				if ar, ok := r.(AlphabetRejected); ok {
+					run.Violate(ev.Violation{Pred: "well-formed-alphabet-rule-is-accepted", Sig: map[string]any{"rule": ar.Text},
+						What: fmt.Sprintf("the parser rejects the well-formed rule %q of the check's alphabet: %v", ar.Text, ar.Err), Replay: map[string]any{"alphabet_rule": ar.Text}})
+					code = run.Finish()
+					fmt.Printf("%s %s: exit=%d wall=%.1fs\n", id, tier, code, run.Elapsed().Seconds())
+					return
+				}
 				if he, ok := r.(HarnessError); ok {
 					fmt.Fprintln(os.Stderr, "harness error:", string(he))
 					run.Set("harness_error", string(he))
@@ -86,6 +93,10 @@ func Main(id, tier, replayPath string) int {
 				panic(r)
 			}
 		}()
+		if t, ok := c.Replay["alphabet_rule"].(string); ok {
+			mustNetRule(t, 1) // panics with AlphabetRejected if the rule is still rejected
+			return -1
+		}
 		p.Fn(c)
 		return -1
 	}()
@@ -104,6 +115,16 @@ func Main(id, tier, replayPath string) int {
 	rc := run.Finish()
 	fmt.Printf("%s %s: exit=%d wall=%.1fs\n", id, tier, rc, run.Elapsed().Seconds())
 	return rc
+}
+
+// AlphabetRejected is panicked when a rule of a check's alphabet is rejected by
+// the parser.  Every alphabet rule is well-formed and parses on the tree the
+// alphabets were written for (the checks are silent there), so a rejection means
+// the rule -- and whatever it blocks, allows or rewrites -- is lost: it is
+// reported as a violation of the property under check, not as a harness error.
+type AlphabetRejected struct {
+	Text string
+	Err  error
 }
 
 // HarnessError is panicked for conditions that are the harness's fault (model
@@ -166,7 +187,7 @@ func mustAddr(s string) netip.Addr { return netip.MustParseAddr(s) }
 func mustNetRule(text string, id int) *rules.NetworkRule {
 	r, err := rules.NewNetworkRule(text, id)
 	if err != nil {
-		panic(HarnessError(fmt.Sprintf("alphabet rule %q does not parse: %v", text, err)))
+		panic(AlphabetRejected{Text: text, Err: err})
 	}
 	return r
 }
